@@ -9,7 +9,7 @@ def P(pid, technique, text, note, ref):
 
 P("C01", "trace monitor: MH decision ledger rebuilt from posterior-call trace + calibration z-tests; proposal-reversibility and attempt-weighted distribution tests",
   "Every accept/reject decision observed in real sampler runs is reconstructed from the trace of posterior evaluations and judged against the Metropolis-Hastings probability for the move proposed (exact for uphill moves, calibrated z-test for downhill moves); proposals are tested for reversibility; attempt-weighted chain statistics are compared with targets of known law. Finite-run statistical statements with a family-wise false-alarm budget of 1e-6 and two-stage confirmation; says nothing about trajectories not produced.",
-  "trusts numpy's generators and scipy.stats reference CDFs; long-run convergence is restated as finite-run tests; the retry-until-accept jump-chain bias is a recorded known finding", "DESIGN.md §5 C01, §4")
+  "trusts numpy's generators and scipy.stats reference CDFs; long-run convergence is restated as finite-run tests with attempt weights; the retry-until-accept jump-chain bias is a recorded known finding (KNOWN_FINDINGS.txt)", "DESIGN.md §5 C01, §4")
 P("C02", "contract monitor: closed-form GP posterior reference model on every GpRegressor call",
   "Post-conditions on the real GpRegressor.__call__/build_posterior compare every prediction of seeded random models (all kernels, composites, change-points, noise kernels, mean functions, d=1..4, y_err/y_cov) with an independently written closed-form posterior (plain solves) under a conditioning-derived tolerance, plus metamorphic re-runs (permutation, y_err vs y_cov).",
   "reference kernels written from the documented formulas; ill-conditioned systems (cond>1e10) are skipped and counted", "DESIGN.md §5 C02")
@@ -27,7 +27,7 @@ P("C06", "contract monitor: reference log-densities, PIT/KS tests of draws, inde
   "module RNGs are replaced by seeded generators; KS tests at family-wise 1e-6 with two-stage confirmation", "DESIGN.md §5 C06")
 P("C07", "direct monitoring of the leapfrog map on real chain objects: reversibility, Jacobian determinant, energy-error order, kinetic-energy/momentum law, finite-difference gradient",
   "The trajectory map of real HamiltonianChain objects is driven over seeded potentials, masses, temperatures, boxes and step sizes and judged for time-reversibility, unit Jacobian determinant, second-order energy error, consistency of kinetic energy with the momentum law, and accuracy of the fallback gradient.",
-  "smooth well-conditioned potentials; kinked (wall-hit) finite-difference Jacobians are skipped and counted; matrix-mass x bounds x reflection irreversibility is a recorded known finding", "DESIGN.md §5 C07")
+  "smooth well-conditioned potentials; kinked (wall-hit) finite-difference Jacobians and wall-grazing trajectories are skipped and counted; two recorded known findings: matrix-mass x bounds x reflection irreversibility, first-order energy error of reflecting trajectories", "DESIGN.md §5 C07")
 P("C08", "history monitor on the parallel-tempering pipes (RecordingConn) + snapshot invariants + schedule perturbation with identical-result oracle",
   "Real ParallelTempering runs are recorded at the parent side of every pipe and through return_chains snapshots; exchange rounds are checked for matching, acceptance calibration, exact hand-over and re-tempering; the same seeded program is re-run under perturbed worker schedules (delays, slow worker, affinity) and must return identical chains; shutdown must terminate all workers.",
   "sampled schedules, not all interleavings; watchdog expiry is inconclusive", "DESIGN.md §5 C08")
@@ -58,8 +58,8 @@ P("C16", "contract monitor: Richardson derivatives of the real predictions + ref
 P("C17", "contract monitor: gain-form linear-Gaussian posterior reference, MVN evidence, Richardson gradient",
   "GpLinearInverter results for seeded tall/wide/square/rank-deficient model matrices are compared with an independent gain-form posterior, judged for symmetry/PSD/shrinkage, and the evidence and its gradient with an MVN log-density and numerical derivatives.",
   "cond>1e10 skipped and counted", "DESIGN.md §5 C17")
-P("C18", "contract monitor: quadrature of the EI definition, branch-reach monitor (sys.monitoring), Richardson gradients, propose/add state invariants",
-  "Acquisition values are compared with direct quadrature of their definitions for z from -40 to +5 (both EI branches must be reached, proven by a line monitor), opt_func_gradient with numerical derivatives, proposals with the bounds, and add_evaluation with the data/incumbent/caller-array invariants.",
+P("C18", "contract monitor: quadrature of the EI definition, branch-reach counters, self-validating numerical gradients, propose/add state invariants",
+  "Acquisition values are compared with direct quadrature of their definitions for z from -40 to +5 (both EI branches must be reached, proven by counters of monitored evaluations with z < -3 and z >= -3, plus points bisected onto both sides of the switch), opt_func_gradient with numerical derivatives, proposals with the bounds, and add_evaluation with the data/incumbent/caller-array invariants.",
   "trusts scipy.integrate.quad on a smooth, factored integrand", "DESIGN.md §5 C18")
 P("C19", "contract monitor: high-accuracy quadrature of the estimator's own pdf; metamorphic shift/scale re-runs",
   "For GaussianKDE and UnimodalPdf fitted to seeded samples: unit normalisation, cdf = integral of pdf, interval mass and end-density equality, mode optimality, moments vs centred quadrature, and covariance under shift/scale.",
